@@ -193,6 +193,19 @@ def run(ctx):
         check_graph(ctx, ds, cls, shape, dt, ftype, fam)
         if len(ctx.cases) > 300:
             ctx.flush()
+    # large networks: ranks beyond 2**15 and rank * size beyond 2**31 (any 16/32-bit intermediate in the ordering
+    # overflows here and nowhere on small graphs). Chain towards lower indices (core.rank is linear on it) with
+    # short side branches and a few cells outside the network.
+    for _ in range(1 if quick else 3):
+        L = rng.randint(46400, 52000)
+        ds = [0] + list(range(L - 1))
+        for _b in range(rng.randint(3, 30)):
+            ds.append(rng.randint(0, len(ds) - 1))
+        for _b in range(rng.randint(0, 5)):
+            ds.append(len(ds) + 10 ** 9)   # placeholder for the missing value, fixed below
+        n_ = len(ds)
+        ds = [d if d < n_ else n_ for d in ds]
+        check_large(ctx, ds, rng.choice([np.int32, np.int64, np.uint32]))
     if not quick:
         # O(n^2) stack membership test of core.rank: long chains, open and closed (time bound for C13)
         for closed in (False, True):
@@ -202,6 +215,38 @@ def run(ctx):
 
 
 # ----------------------------------------------------------------------------------------
+def check_large(ctx, ds, dt):
+    """large loop-free network, linear-time oracles only (the declarative reading itself, evaluated in Python):
+    rank = distance to the pit, both orders list every network cell exactly once and after its downstream cell"""
+    n = len(ds)
+    ctx.evaluations += 1
+    ctx.count("family:large-chain")
+    desc = {"op": "c03-large", "n": n, "dtype": np.dtype(dt).name,
+            "ds": "chain i -> i-1 for i < L, then branches/missing: " + str(ds[-40:]), "L": next(i for i in range(1, n) if ds[i] != i - 1)}
+    dist = [0] * n
+    for i in range(1, n):          # ds[i] < i for every network cell of this family
+        dist[i] = -9999 if ds[i] == n else dist[ds[i]] + 1
+    valid = [i for i in range(n) if ds[i] != n]
+    flw = mk_vector(ds, dt)
+    rk = ints(flw.rank)
+    if rk != dist:
+        bad = [i for i in range(n) if rk[i] != dist[i]][:5]
+        ctx.fail(desc, "spec", f"rank differs from the distance to the pit at cells {bad} (n={n})")
+    for method in ("sort", "walk"):
+        flw.order_cells(method)
+        seq = canon_idx(flw.idxs_seq, n)
+        pos = {}
+        for k, c in enumerate(seq):
+            pos.setdefault(c, k)
+        if len(seq) != len(valid) or len(pos) != len(seq) or any(ds[c] == n for c in seq if c < n) or any(c >= n for c in seq):
+            ctx.fail(desc, "spec", f"order_cells('{method}') does not list exactly the {len(valid)} network cells once (n={n}, listed {len(seq)}, distinct {len(pos)})")
+            continue
+        bad = [c for c in valid if ds[c] != c and pos[ds[c]] > pos[c]][:5]
+        if bad:
+            ctx.fail(desc, "spec", f"order_cells('{method}') lists cells {bad} before their downstream cell (n={n})")
+    ctx.nontrivial.add("large:%d:%s" % (n, np.dtype(dt).name))
+
+
 def check_graph(ctx, ds, cls, shape, dt, ftype, fam):
     from pyflwdir import core
     n = len(ds)
